@@ -797,10 +797,94 @@ def replay(path):
     return 1 if still else 0
 
 
+def selftest():
+    """Shows that the binding binds: (i) one recorded field of one event per operation is corrupted and the trace specification must
+    reject exactly that event; (ii) the reachability witnesses of MC_TzRs must be violated (the system model's properties are not
+    vacuous). Not a registered check; results in out/selftest.json."""
+    import copy
+    b, err = build_harness("chk")
+    if b is None:
+        print(err); return 2
+    rng = random.Random(4242)
+    evs = []
+    evs += list(gens.gen_gmtime(rng, 3)) + list(gens.gen_timegm(rng, 3)) + list(gens.gen_nanos(rng, 3)) + list(gens.gen_render(rng, 4)) + list(gens.gen_c11(rng, 6))
+    evs += list(gens.gen_c14(rng, 30))
+    evs += list(gens.gen_zone_session(rng, gens.gen_table_zone(rng, nmax=6, leaps=[]), nprobe=6, do_find=True, do_findn=True))
+    evs += list(gens.gen_rule_zone_session(rng, gens.corpus_rule(0), do_find=True, nprobe=6))
+    evs += list(gens.gen_tzstrings(rng, 4)) + list(gens.gen_resolve(rng, 3))
+    evs += list(gens.gen_corpus_decode(rng, ["Europe/Paris"]))
+    inp, outp = os.path.join(C.OUT, "selftest.in"), os.path.join(C.OUT, "selftest.ndjson")
+    open(inp, "w").write("\n".join(json.dumps(e) for e in evs) + "\n")
+    C.run_harness(b, inp, outp)
+    rec = [json.loads(l) for l in open(outp)]
+    base = C.run_trace(outp, nshards=1)
+    base_bad = {i for (i, *_r) in base["bad"]}
+
+    def corrupt(v):
+        """change one numeric leaf (depth-first); returns True when something was changed"""
+        if isinstance(v, dict):
+            for k in sorted(v):
+                if isinstance(v[k], bool):
+                    continue
+                if isinstance(v[k], int) and k not in ("dst",):
+                    v[k] += 1
+                    return True
+                if isinstance(v[k], (dict, list)) and corrupt(v[k]):
+                    return True
+        elif isinstance(v, list):
+            for i, x in enumerate(v):
+                if isinstance(x, int) and not isinstance(x, bool):
+                    v[i] = (x + 1) % 1000 if i > 0 else x
+                    if v[i] != x:
+                        return True
+                if isinstance(x, (dict, list)) and corrupt(x):
+                    return True
+        return False
+
+    results = []
+    seen_ops = set()
+    for i, e in enumerate(rec):
+        if e["op"] in seen_ops or i in base_bad or not ("ok" in e["r"] or "full" in e["r"]):
+            continue
+        mut = copy.deepcopy(rec)
+        if not corrupt(mut[i]["r"]):
+            continue
+        seen_ops.add(e["op"])
+        p = os.path.join(C.OUT, "selftest-mut.ndjson")
+        open(p, "w").write("\n".join(json.dumps(x) for x in mut) + "\n")
+        tr = C.run_trace(p, nshards=1)
+        new_bad = {j for (j, *_r) in tr["bad"]} - base_bad
+        results.append(dict(op=e["op"], index=i, rejected_at=sorted(new_bad), ok=(i in new_bad)))
+        os.remove(p)
+    witnesses = {}
+    consts = {k: f"<- {k}C" for k in ("Zones", "Instants", "LocalTimes", "Files", "TzValues", "Dirs", "Vfs")}
+    consts["MaxSteps"] = 3
+    for w in ("W_Fold", "W_Gap", "W_BufStale", "W_Reads2", "W_Project", "W_Refused"):
+        try:
+            run_mc("MC_TzRs", consts, invariants=(w,), workers=8, timeout=600, tag="selftest-" + w)
+            witnesses[w] = "NOT violated (the situation is unreachable: the model would be vacuous there)"
+        except ToolError as ex:
+            witnesses[w] = "violated, as required" if f"Invariant {w} is violated" in str(ex) else "error: " + str(ex)[:200]
+    ok = all(r["ok"] for r in results) and all(v.startswith("violated") for v in witnesses.values())
+    json.dump(dict(corrupted_fields=results, reachability_witnesses=witnesses, ok=ok), open(os.path.join(C.OUT, "selftest.json"), "w"), indent=1)
+    for r in results:
+        print(("ok   " if r["ok"] else "FAIL ") + f"corrupting one field of a recorded '{r['op']}' result -> rejected at {r['rejected_at']} (event {r['index']})")
+    for w, v in witnesses.items():
+        print(("ok   " if v.startswith("violated") else "FAIL ") + f"{w}: {v}")
+    os.remove(inp); os.remove(outp)
+    return 0 if ok else 1
+
+
 def main(argv):
     if not argv:
         print(__doc__)
         return 2
+    if argv[0] == "selftest":
+        try:
+            return selftest()
+        except ToolError as e:
+            print("TOOL-ERROR:", e)
+            return 2
     if argv[0] == "replay":
         try:
             return replay(argv[1])
